@@ -29,6 +29,7 @@ from flax.core import lift as core_lift
 from flax.core import meta
 from flax.core import scope as core_scope
 from flax.linen import partitioning as nnp
+from flax.nnx import bridge as nnx_bridge
 from flax.nnx import spmd as nnx_spmd
 from flax.nnx.bridge import variables as bridge_vars
 
@@ -41,7 +42,8 @@ SPEC = {
     '(transform_metadata) on a parameter and a mutable state variable of rank 0-3, every variable axis in '
     '[-(r+2), r+1] (so both out-of-range sides), aligned / short / None-containing names, boxed and raw; all 2-level '
     'nestings of rank 2 (quick: seeded sample), 3-level samples; init, what the body sees, state after apply, '
-    'get_partition_spec; Linen collections lifted In(k)-only / Out(k)-only / broadcast with three different axes and NNX '
+    'get_partition_spec; the same for NNX modules with sharding annotations wrapped by bridge.ToLinen (NNXMeta boxes; '
+    'NNXMeta.add_axis/remove_axis also in the exhaustive unit scope); Linen collections lifted In(k)-only / Out(k)-only / broadcast with three different axes and NNX '
     'StateAxes with a different axis per substate (all axis triples/pairs in thorough, seeded sample in quick); '
     'a sample executed for real and compared bit-for-bit with the raw-array run; '
     'logical_to_mesh_axes: all rule lists of length<=2 (thorough <=3) over 3 logical x 6 mesh values x 9 name tuples '
@@ -61,6 +63,7 @@ SPEC = {
     'alignment is claimed for the outermost box (the one get_partition_spec reads); transforms do not touch inner boxes',
     'no device mesh in the sandbox: sharding constraints inside unbox are inert; pmap/shard_map not exercised',
     'NNX get_partition_spec is modelled without logical sharding_rules in scope',
+    'NNXMeta boxes: the on_add_axis/on_remove_axis hooks of the wrapped NNX variable are not run by Linen transforms (TODO in flax)',
   ],
   'model_partial': [],
 }
@@ -106,6 +109,9 @@ def box_json(x):
   """Canonical JSON of a Linen leaf: nested Partitioned boxes around an array-like."""
   if isinstance(x, meta.Partitioned):
     return {'names': list(x.names), 'inner': box_json(x.value)}
+  if isinstance(x, bridge_vars.NNXMeta):
+    sh = x.metadata.get('sharding')
+    return box_json(x.value) if sh is None else {'names': list(sh), 'inner': box_json(x.value)}
   return {'raw': shape_of(x)}
 
 
@@ -185,6 +191,21 @@ def _nnx_remove(names, k, nm):
   return call(lambda: _nnx_sharding(nnx_spmd.remove_axis(nnx.State({'w': vs}), k, {nnx.PARTITION_NAME: nm})['w']))
 
 
+def _meta_box(names):
+  md = {} if names is None else {'sharding': tuple(names)}
+  return bridge_vars.NNXMeta(nnx.Param, np.zeros(()), md)
+
+
+def _nnxmeta_add(names, k, nm, with_key=True):
+  b = _meta_box(names)
+  return call(lambda: (lambda r: None if r is None else list(r))(b.add_axis(k, {PN: nm} if with_key else {}).metadata.get('sharding')))
+
+
+def _nnxmeta_remove(names, k, nm, with_key=True):
+  b = _meta_box(names)
+  return call(lambda: (lambda r: None if r is None else list(r))(b.remove_axis(k, {PN: nm} if with_key else {}).metadata.get('sharding')))
+
+
 def np_stack_names(names, k, nm):
   """Independent reference: where does numpy put a new axis `k`?  Returns the expected names or None
   when numpy rejects the axis.  Only meaningful for len(names) == rank."""
@@ -203,11 +224,12 @@ def check_unit(ctx, drv, cases):
   """cases: list of (names, k, nm)."""
   reqs = []
   for names, k, nm in cases:
-    reqs += [('add_axis', [k, nm, names]), ('remove_axis', [k, nm, names]), ('nnx_add_axis', [k, nm, names]), ('nnx_remove_axis', [k, nm, names])]
+    reqs += [('add_axis', [k, nm, names]), ('remove_axis', [k, nm, names]), ('nnx_add_axis', [k, nm, names]), ('nnx_remove_axis', [k, nm, names]),
+             ('nnxmeta_add_axis', [k, [nm], names]), ('nnxmeta_remove_axis', [k, [nm], names])]
   outs = drv.run(reqs)
   reqs2 = []
   for i, (names, k, nm) in enumerate(cases):
-    a = outs[4 * i]
+    a = outs[6 * i]
     reqs2.append(('remove_axis', [k, nm, a[1]]))
   outs2 = drv.run(reqs2)
   for i, (names, k, nm) in enumerate(cases):
@@ -215,16 +237,18 @@ def check_unit(ctx, drv, cases):
     ctx.case(case, nontrivial=any(n is not None for n in names) or nm is not None)
     ctx.count('unit_k', 'neg' if k < 0 else ('pad' if k > len(names) else 'in'))
     ctx.count('unit_rank', len(names))
-    m_add, m_rem, m_nadd, m_nrem = outs[4 * i : 4 * i + 4]
+    m_add, m_rem, m_nadd, m_nrem, m_madd, m_mrem = outs[6 * i : 6 * i + 6]
     m_back = outs2[i]
     i_add = _linen_add(names, k, nm)
     i_rem = _linen_remove(names, k, nm)
     i_nadd = _nnx_add(names, k, nm)
     i_nrem = _nnx_remove(names, k, nm)
+    i_madd = _nnxmeta_add(names, k, nm)
+    i_mrem = _nnxmeta_remove(names, k, nm)
     # ---- property oracle on the implementation
     bad = None
     want = np_stack_names(names, k, nm)
-    for api, got in (('linen', i_add), ('nnx', i_nadd)):
+    for api, got in (('linen', i_add), ('nnx', i_nadd), ('nnxmeta', i_madd)):
       if got[0] != 'ok':
         bad = (f'{api}-add_axis-raises', f'{api} add_axis({k}) on names {names} raised {got[1]}')
       elif want is not None and got[1] != want:
@@ -233,7 +257,7 @@ def check_unit(ctx, drv, cases):
       if bad:
         break
     if not bad and -(len(names) + 1) <= k <= len(names):
-      for api, add, rem in (('linen', i_add, _linen_remove), ('nnx', i_nadd, _nnx_remove)):
+      for api, add, rem in (('linen', i_add, _linen_remove), ('nnx', i_nadd, _nnx_remove), ('nnxmeta', i_madd, _nnxmeta_remove)):
         back = rem(add[1], k, nm)
         if back != ('ok', list(names)):
           bad = (f'{api}-add-remove-not-inverse', f'{api}: remove_axis({k}) after add_axis({k}) on {names} gives {back}, not the original names')
@@ -242,7 +266,7 @@ def check_unit(ctx, drv, cases):
       # remove_axis must take out exactly the entry at the (normalised) position and only if it is `nm`
       n = len(names)
       j = k + n if k < 0 else k
-      for api, got in (('linen', i_rem), ('nnx', i_nrem)):
+      for api, got in (('linen', i_rem), ('nnx', i_nrem), ('nnxmeta', i_mrem)):
         if 0 <= j < n and names[j] == nm:
           w = ('ok', names[:j] + names[j + 1 :])
           if got != w:
@@ -255,8 +279,8 @@ def check_unit(ctx, drv, cases):
       ctx.violation(bad[0], bad[1], case)
       continue
     # ---- correspondence with the model
-    impl = [i_add, i_rem, i_nadd, i_nrem]
-    model = [m_add, m_rem, m_nadd, m_nrem]
+    impl = [i_add, i_rem, i_nadd, i_nrem, i_madd, i_mrem]
+    model = [m_add, m_rem, m_nadd, m_nrem, m_madd, m_mrem]
     if impl != model:
       ctx.disagreements_checked += 1
       ctx.violation('unit-model-mismatch', f'add/remove differ from the model on {case}: impl {impl}, model {model}', case, concrete=False)
@@ -462,7 +486,7 @@ def oracle_aligned(bj, shape, names, levels, what):
 
 def check_transform(ctx, drv, api, cases):
   """api in {'linen','legacy','nnx'}; cases: list of dict(levels, shape, names, with_key)."""
-  observe = {'linen': linen_observe, 'linen-logical': linen_logical_observe, 'legacy': legacy_observe, 'nnx': nnx_observe}[api]
+  observe = {'linen': linen_observe, 'linen-logical': linen_logical_observe, 'legacy': legacy_observe, 'nnx': nnx_observe, 'bridge': bridge_observe}[api]
   reqs = []
   for cs in cases:
     levels, shape, names = cs['levels'], cs['shape'], cs['names']
@@ -709,6 +733,51 @@ def nnx_observe(levels, shape, names, with_key=True):
   return obs
 
 
+# ---- bridge: an NNX module with sharding annotations, wrapped by ToLinen, under Linen transforms --
+
+
+class BridgeNM(nnx.Module):
+  def __init__(self, shape, names, *, rngs):
+    kw = {} if names is None else {'sharding': tuple(names)}
+    self.w = nnx.Param(int_init(rngs.params(), tuple(shape)), **kw)
+
+  def __call__(self, c, x):
+    SEEN.append(('w', _nnx_var_json(self.w)))
+    y = x * jnp.sum(self.w.value)
+    return c + y, y
+
+
+def bridge_build(levels, shape, names, with_key=True):
+  cls = nnx_bridge.ToLinen
+  for kind, ax, pname, size in levels:
+    mp = {PN: pname} if with_key else {}
+    if kind == 'vmap':
+      cls = nn.vmap(cls, variable_axes={'params': ax, 'nnx': None}, split_rngs={'params': True}, in_axes=(0, 0), out_axes=0, axis_size=size, metadata_params=mp)
+    else:
+      cls = nn.scan(cls, variable_axes={'params': ax}, variable_broadcast='nnx', split_rngs={'params': True}, in_axes=0, out_axes=0, length=size, metadata_params=mp)
+  return cls(BridgeNM, args=(tuple(shape), None if names is None else tuple(names)))
+
+
+def bridge_observe(levels, shape, names, with_key=True):
+  m = bridge_build(levels, shape, names, with_key)
+  c, xs = level_inputs(levels)
+  obs = {}
+  SEEN.clear()
+  r = call(lambda: jax.eval_shape(m.init, jax.random.key(0), c, xs))
+  if r[0] == 'err':
+    return {'init': r}
+  v = r[1]
+  obs['init'] = ('ok', {'w': box_json(v['params']['w'])})
+  obs['spec'] = call(lambda: _pspec_json(nn.get_partition_spec({'w': v['params']['w']})['w']))
+  if not names:
+    obs['spec'] = None  # unannotated / empty sharding: replicated spec, nothing to compare by name
+  SEEN.clear()
+  r = call(lambda: jax.eval_shape(lambda vv: m.apply(vv, c, xs), v))
+  obs['apply'] = ('ok', {}) if r[0] == 'ok' else r
+  obs['apply_seen'] = _seen_summary()
+  return obs
+
+
 # ---- Linen: collections lifted in only / out only / broadcast, each with its own axis ------------
 
 
@@ -861,6 +930,20 @@ def check_real_exec(ctx, api, cases):
         a = jax.tree.leaves((out, meta.unbox(upd)))
         b = jax.tree.leaves((out2, upd2))
         return all(np.array_equal(np.asarray(x), np.asarray(y)) for x, y in zip(a, b)) and len(a) == len(b), box_json(upd['state']['c']), box_json(v['state']['c'])
+    elif api == 'bridge':
+      def run():
+        m = bridge_build(levels, shape, names)
+        v = m.init(jax.random.key(1), c, xs)
+        out = m.apply(v, c, xs)
+        mr = bridge_build(levels, shape, None)
+        vr = mr.init(jax.random.key(1), c, xs)
+        out2 = mr.apply(vr, c, xs)
+        a = jax.tree.leaves((out, meta.unbox(v['params'])))
+        b = jax.tree.leaves((out2, vr['params']))
+        same = all(np.array_equal(np.asarray(x), np.asarray(y)) for x, y in zip(a, b)) and len(a) == len(b)
+        bj = box_json(v['params']['w'])
+        want = oracle_aligned(bj, shape, names, levels, 'bridge exec')
+        return same and want is None, bj, bj
     else:
       def run():
         m = nnx_create_fn(levels, shape, names)()
@@ -1197,6 +1280,10 @@ def run(ctx):
   check_transform(ctx, drv, 'linen', [{'levels': [(kind, k, 'V', 2)], 'shape': [3, 5], 'names': nm, 'with_key': False} for kind in ('vmap', 'scan') for k in (0, -1) for nm in (['in', 'out'], None)])
   check_transform(ctx, drv, 'legacy', single_level_cases((1, 2), variants=('aligned',)))
   check_transform(ctx, drv, 'linen-logical', single_level_cases((2,), variants=('aligned',)))
+  # NNX modules with sharding annotations wrapped by bridge.ToLinen: the NNXMeta box under nn.vmap / nn.scan
+  check_transform(ctx, drv, 'bridge', single_level_cases((1, 2)))
+  check_transform(ctx, drv, 'bridge', raw_cases)
+  check_transform(ctx, drv, 'bridge', [{'levels': [(kind, 0, 'V', 2)], 'shape': [3, 5], 'names': nm, 'with_key': False} for kind in ('vmap', 'scan') for nm in (['in', 'out'], None)])
   nested2 = nested_cases(2)
   ctx.extra['nested2_total'] = len(nested2)
   if not thorough:
@@ -1211,6 +1298,7 @@ def run(ctx):
   check_transform(ctx, drv, 'linen', pick)
   check_transform(ctx, drv, 'nnx', pick_nnx)
   check_transform(ctx, drv, 'legacy', pick_legacy)
+  check_transform(ctx, drv, 'bridge', rng.sample(nested2, 16) if not thorough else nested2)
   check_transform(ctx, drv, 'linen', nested3)
   check_transform(ctx, drv, 'nnx', nested3[: len(nested3) // 2])
   mark('transforms_eval_shape')
@@ -1222,6 +1310,7 @@ def run(ctx):
   in_range2 = [c for c in nested2 if _levels_in_range(c['levels'], 2)]
   n_exec = 3 if not thorough else 12
   check_real_exec(ctx, 'linen', rng.sample(in_range2, n_exec) + [{'levels': [('vmap', -1, 'V', 2)], 'shape': [3, 5], 'names': ['in', 'out']}])
+  check_real_exec(ctx, 'bridge', rng.sample(in_range2, 1 if not thorough else 6) + [{'levels': [('vmap', 0, 'layers', 4)], 'shape': [3, 5], 'names': ['in', 'out']}])
   check_real_exec(ctx, 'nnx', rng.sample(in_range2, n_exec - 1) + [{'levels': [('scan', -1, 'S', 4)], 'shape': [3, 5], 'names': ['in', 'out']}])
 
   mark('real_exec')
